@@ -12,7 +12,8 @@
 (***************************************************************************)
 EXTENDS RA_PairLaws, Json
 
-CONSTANTS Mode,      \* "general" | "general2" (more targets: values 0..2) | "slices" | "sorts"
+CONSTANTS Mode,      \* "general" | "general2" (more targets: values 0..2) | "slices" | "sorts" | "joins"
+                     \* | "custom" (user-defined RowFilter / Reordering operations with truthful flags on one side)
           SortFix,   \* TRUE: Sort.commute as fixed (F10); FALSE: pinned commit
           Clamp,     \* TRUE: Slice.then as fixed (F6); FALSE: pinned commit
           ExcludeKF, \* TRUE: open known findings are excluded from the invariants
@@ -79,14 +80,26 @@ Recreate(c) == IF Mode \in {"general", "general2"} /\ c.o = "proj"
 FixedLeaves == {FLeaf("F1", {"a", "c"}), FLeaf("F2", {"b", "c"}), FLeaf("F3", {"a", "b"}), FLeaf("F4", {"c"}),
                 Un(Proj({"c"}), Un(Dedup, FLeaf("F1", {"a", "c"})))}
 JoinPredsFor(cols, f) == {q \in {PLit(TRUE), Cmp("le", A, C), Cmp("lt", B, C)} : ReqP(q) \subseteq cols \cup Cols(f)}
+\* ... and, with the trivial predicate, as Join().partial(fixed) leaves it when commute() is asked directly:
+\* common columns not resolved yet (res = FALSE)
 PJoinsOn(cols) ==
     UNION {{[o |-> "pjoin", fixed |-> f, p |-> p, common |-> {x \in cols \cap Cols(f) : IsKey(x)}, res |-> TRUE, lhs |-> side] :
-               side \in BOOLEAN, p \in JoinPredsFor(cols, f)} : f \in FixedLeaves}
+               side \in BOOLEAN, p \in JoinPredsFor(cols, f)}
+           \cup {[o |-> "pjoin", fixed |-> f, p |-> PLit(TRUE), common |-> {}, res |-> FALSE, lhs |-> FALSE]} : f \in FixedLeaves}
 JoinCurMenu == {op \in CalcsOn(TC, "d") \cup {Proj(cs) : cs \in SUBSET TC} \cup {Sel(p) : p \in PredsOn(TC)} \cup {Dedup}
                         \cup {Sort(s) : s \in SortsOn(TC)} \cup SliceMenuSmall : TRUE}
+\* mode "custom": one side is an operation of the extension API, the other side ranges over the general menu
+CustMenu == {Cust(f) : f \in CustNames}
+GeneralOn(cols, tag) ==
+    CalcsOn(cols, tag) \cup {Proj(cs) : cs \in SUBSET cols} \cup {Sel(p) : p \in PredsOn(cols)} \cup {Dedup}
+        \cup {Sort(s) : s \in SortsOn(cols)} \cup SliceMenuSmall
+CustOn(cols) == {c \in CustMenu : ReqOp(c) \subseteq cols}
 Init == /\ phase = "pick"
         /\ IF Mode = "joins"
            THEN cur \in JoinCurMenu /\ new \in PJoinsOn(OpCols(cur, TC))
+           ELSE IF Mode = "custom"
+           THEN \/ cur \in CustMenu /\ new \in GeneralOn(TC, "d") \cup CustMenu
+                \/ cur \in GeneralOn(TC, "c") /\ new \in CustOn(OpCols(cur, TC))
            ELSE cur \in MenuOn(TC, "c") /\ new \in MenuOn(OpCols(cur, TC), "d") \cup Recreate(cur)
         /\ res = NoneOp
 
